@@ -589,9 +589,10 @@ class LFRicLoop(PSyLoop):
 
     def _add_field_component_halo_exchange(self, halo_field, idx=None):
         '''An internal helper method to add the halo exchange call immediately
-        before this loop using the halo_field argument for the
-        associated field information and the optional idx argument if
-        the field is a vector field.
+        before this loop (or before the enclosing loop over colours if
+        this is a loop over the cells of a single colour) using the
+        halo_field argument for the associated field information and
+        the optional idx argument if the field is a vector field.
 
         In certain situations the halo exchange will not be
         required. This is dealt with by adding the halo exchange,
@@ -614,11 +615,17 @@ class LFRicLoop(PSyLoop):
         # Avoid circular import
         # pylint: disable=import-outside-toplevel
         from psyclone.dynamo0p3 import LFRicHaloExchange
+        # If this is a loop over the cells of one colour then the halo
+        # exchange must be placed before the enclosing loop over colours
+        # (and not be repeated for every colour).
+        target = self
+        if self.loop_type == "colour" and self.ancestor(LFRicLoop):
+            target = self.ancestor(LFRicLoop)
         exchange = LFRicHaloExchange(halo_field,
-                                     parent=self.parent,
+                                     parent=target.parent,
                                      vector_index=idx)
-        self.parent.children.insert(self.position,
-                                    exchange)
+        target.parent.children.insert(target.position,
+                                      exchange)
 
         # Is this halo exchange required? The halo exchange being
         # added may replace an existing halo exchange, which would
